@@ -5,7 +5,7 @@ from feoxlint import analysis as A
 from feoxlint import rulekit as R
 from feoxlint import vocab as V
 from feoxlint.model import path_matches
-from rules.common import names_of, origin_names, closure_ret_cmp, closure_carriers
+from rules.common import names_of, origin_names, closure_ret_cmp, closure_carriers, comparison_roots
 
 EXPLANATION = """
 Two structural clauses the restart argument rests on, plus the winner rule: in replay_allocation_journal the marker
@@ -21,7 +21,16 @@ NOT_DECIDED = ["contents equality across recoveries", "repairs touch only dead b
 ASSUMPTIONS = []
 
 
+
+def check_release_len(ctx):
+    """see rules.common.check_recovery_release_len: recovery frees an owned extent with the length of that very generation"""
+    from rules import common as _c
+    _c.check_recovery_release_len(ctx, "C04.release-len")
+
+
 def check(ctx):
+    check_marker_accept(ctx)
+    check_release_len(ctx)
     inst = "C04.replay"
     body = ctx.fn("DiskIO::replay_allocation_journal", inst)
     if body is not None:
@@ -177,6 +186,56 @@ def check_retire_order(ctx):
               "an expired newest generation is never retired in an earlier journal transaction than the older generation it beat "
               "(retire_extents splits its argument into independent per-chunk transactions in sector order, and recovery hands it "
               "stale duplicates and expired winners together)", where, detail)
+
+
+def check_marker_accept(ctx, inst="C04.marker-accept"):
+    """recovery reads its own repairs: DiskIO::retire_extents coalesces adjacent extents and writes one marker chain over the
+    merged run, so a head marker may carry a length far beyond any single record. The scan must accept every such head: the only
+    tests of the marker's length field that lead to a refusal are `extent == 0` and `sector + extent > total_sectors` (plus the
+    checked_add overflow). Any further bound on the length makes the open *after* a large repair fail on an untouched device."""
+    scan = ctx.fn("FeoxStore::scan_and_rebuild_indexes", inst)
+    if scan is None:
+        return
+    def is_len(e):
+        # the marker's 8-byte length field: from_le_bytes over data[8..16]
+        for x in e.walk():
+            if x.k == "call" and path_matches(x.extra, "from_le_bytes") and any(y.k == "agg" and str(y.extra).endswith("Range") and
+                                                                               [z.extra.get("val") if z.k == "const" and isinstance(z.extra, dict) else None for z in y.a] == [8, 16]
+                                                                               for y in x.walk()):
+                return True
+        return False
+    errs = set(A.error_nodes(scan))
+    def refuses(sw, label):
+        # straight-line from the edge to an error write (no further decision in between)
+        cur = [t for (t, l) in scan.nodes[sw].succ if l == label]
+        seen = set()
+        while len(cur) == 1 and cur[0] not in seen:
+            n = cur[0]
+            seen.add(n)
+            if n in errs:
+                return True
+            if scan.nodes[n].kind in ("switch", "return"):
+                return False
+            cur = [t for (t, _l) in scan.nodes[n].succ]
+        return False
+    found = []
+    for (nid, r, info) in comparison_roots(scan):
+        if not is_len(r):
+            continue
+        sws = [nid] if scan.nodes[nid].kind == "switch" else \
+            [s_ for s_ in A.switches(scan) if A.switch_info(scan, s_).root.nid == nid or A.switch_info(scan, s_).raw.nid == nid]
+        rej = any(refuses(s_, l) for s_ in sws for l in A.switch_info(scan, s_).edge_vals)
+        found.append((nid, r, rej))
+    ctx.check(len(found) >= 2, inst, "anchor", scan.path, "comparisons on the marker length field (>= 2, found %d)" % len(found), None)
+    for nid, r, rej in found:
+        if not rej:
+            ctx.ok(inst, "PIN", scan.path, "a test of the marker length that refuses nothing", scan.where(nid), nontrivial=False)
+            continue
+        zero = r.extra == "Eq" and r.a[1].k == "const" and (r.a[1].extra or {}).get("val") == 0
+        beyond = r.extra == "Lt" and r.a[1].has_call("checked_add") and (r.a[0].has_field("FeoxStore", "device_size") or "total_sectors" in names_of(scan, r.a[0]))
+        ctx.check(zero or beyond, inst, "PIN", scan.path,
+                  "a marker length is refused only for `extent == 0` or `sector + extent > total_sectors` (coalesced chains of any length are what retire_extents writes)",
+                  scan.where(nid), {"comparison": r.extra + "(" + r.a[0].show()[:60] + ", " + r.a[1].show()[:60] + ")"})
 
 
 def check_repairs(ctx, inst):
